@@ -486,6 +486,22 @@ def d10_objectives(ctx, fits):
     ctx.check(rule, 'fits.py:least_squares#chisquare-after-refinement', ok, 'chi-square is taken from the final minimisation of its branch', 'chisquare is read before the refinement')
 
 
+def d12_no_reanalysis(ctx, fits):
+    """the weights of a fit are the errors the caller determined: no fitting function runs the error analysis of an input (that
+    would replace the caller's analysis parameters by the defaults and modify the caller's objects); only Fit_result.gamma_method
+    analyses anything, namely the fit parameters it owns"""
+    rule = 'C07-D9'
+    n = 0
+    for q, f in fits.functions():
+        for c in walk(f):
+            if isinstance(c, ast.Call) and isinstance(c.func, ast.Attribute) and c.func.attr in ('gamma_method', 'gm') and fits.enclosing_func(c) is f:
+                n += 1
+                own = q.startswith('Fit_result.') and 'self.fit_parameters' in unparse(fits.parents.get(c, c)) or q.startswith('Fit_result.')
+                ctx.check(rule, 'fits.py:%s#reanalysis[%s]' % (q, unparse(c.func.value)[:30]), bool(own), 'Fit_result analyses its own parameters',
+                          '%s calls %s: the input is re-analysed with default parameters inside the fit (its error - the weight of that point - changes and the caller\'s object is modified)' % (q, unparse(c)), fits.loc(c))
+    ctx.floor('error-analysis calls in fits.py (canary: Fit_result.gamma_method)', n, 1)
+
+
 def d7_corrfit(ctx):
     rule = 'C07-D7'
     cm = ctx.repo.mod('correlators')
@@ -496,6 +512,11 @@ def d7_corrfit(ctx):
         return
     cx = [n for n in walk(xs[0].value) if isinstance(n, ast.ListComp)]
     cy = [n for n in walk(ys[0].value) if isinstance(n, ast.ListComp)]
+    if len(cy) == 1 and len(cx) == 0 and any(isinstance(n, ast.Call) and call_name(n) in ('arange', 'range', 'linspace') for n in walk(xs[0].value)):
+        # y is selected by a filter but x is generated independently of it
+        ctx.violated(rule, 'correlators.py:Corr.fit#same-selection', 'the abscissae are generated as `%s` while the ordinates skip undefined timeslices (%s): with an undefined slice inside the '
+                     'fit range the points are paired with the wrong t' % (unparse(xs[0].value), [unparse(i) for i in cy[0].generators[0].ifs]), cm.loc(xs[0]))
+        return
     if len(cx) != 1 or len(cy) != 1:
         ctx.unrec(rule, 'correlators.py:Corr.fit#xs-ys', 'comprehensions not found')
         return
@@ -529,6 +550,7 @@ def run(ctx):
     ctx.rule('C07-D8', 'no hidden state shared between fits')
     ctx.guarded('C07-D8', 'fits@hidden-state', hiddenstate.check, ctx, 'C07-D8', fits, [q for q, _ in fits.functions() if '.' not in q], 'the fit result')
     ctx.guarded('C07-D7', 'correlators.py:Corr.fit', d7_corrfit, ctx)
+    ctx.guarded('C07-D9', 'fits.py@no-reanalysis', d12_no_reanalysis, ctx, fits)
     ctx.rule('C07-D9', 'prior bookkeeping (positions, order, validation)')
     ctx.guarded('C07-D9', 'fits.py:least_squares@priors', d9_priors, ctx, fits)
     from . import C19
@@ -544,6 +566,8 @@ def run(ctx):
 
 
 SELFTEST = [
+    ('prior-reanalysed', 'pyerrors/fits.py', "    if isinstance(i_prior, Obs):\n        return i_prior", "    if isinstance(i_prior, Obs):\n        i_prior.gm()\n        return i_prior", 'C07-D9'),
+    ('corr-fit-x-from-count', 'pyerrors/correlators.py', "        xs = np.array([x for x in range(fitrange[0], fitrange[1] + 1) if self.content[x] is not None])", "        xs = np.arange(fitrange[0], fitrange[1] + 1)", 'C07-D7'),
     ('block-rows-all', 'pyerrors/fits.py', "deriv_y = -scipy.linalg.solve(hess, jac_jac_y[:n_parms, n_parms:])", "deriv_y = -scipy.linalg.solve(hess, jac_jac_y[:n_parms, :-n_parms])", 'C07-D1'),
     ('block-short', 'pyerrors/fits.py', "deriv_y = -scipy.linalg.solve(hess, jac_jac_y[:n_parms, n_parms:])", "deriv_y = -scipy.linalg.solve(hess, jac_jac_y[:n_parms, n_parms + 1:])", 'C07-D1'),
     ('ift-sign', 'pyerrors/fits.py', "deriv_y = -scipy.linalg.solve(hess, jac_jac_y[:n_parms, n_parms:])", "deriv_y = scipy.linalg.solve(hess, jac_jac_y[:n_parms, n_parms:])", 'C07-D2'),
